@@ -121,6 +121,10 @@ type RevCfg struct {
 	Terminating bool `json:"terminating,omitempty"`
 	// PausedByParent: the revision carries the paused-by-parent mark (used by C09)
 	PausedByParent bool `json:"pausedByParent,omitempty"`
+	// PausedCond, when set, is the status of the Paused condition (True / False / Unknown) and
+	// overrides PausedOK; Unknown is what an ObjectSet reports while its delegated phases have
+	// not confirmed the pause
+	PausedCond string `json:"pausedCondition3,omitempty"`
 }
 
 type ChainCase struct {
@@ -230,7 +234,9 @@ func BuildChain(cc ChainCase) *world.World {
 			av = "True"
 		}
 		conds = append(conds, map[string]any{"type": "Available", "status": av, "reason": "x", "message": "", "observedGeneration": gen, "lastTransitionTime": "2026-01-01T00:00:00Z"})
-		if rc.PausedOK {
+		if rc.PausedCond != "" {
+			conds = append(conds, map[string]any{"type": "Paused", "status": rc.PausedCond, "reason": "x", "message": "", "observedGeneration": gen, "lastTransitionTime": "2026-01-01T00:00:00Z"})
+		} else if rc.PausedOK {
 			conds = append(conds, map[string]any{"type": "Paused", "status": "True", "reason": "Paused", "message": "", "observedGeneration": gen, "lastTransitionTime": "2026-01-01T00:00:00Z"})
 		}
 		if rc.Lifecycle == "Archived" {
@@ -322,6 +328,20 @@ func enumerate(quick bool) []ChainCase {
 			}
 		}
 	}
+	// three-valued Paused condition on the older revision of a 2-chain and on both older ones of a 3-chain
+	for _, lc := range []string{"Active", "Paused"} {
+		for _, pc := range []string{"True", "False", "Unknown"} {
+			for _, av := range []bool{false, true} {
+				for _, ctl := range []string{"none", "reported"} {
+					for _, na := range []bool{false, true} {
+						old := RevCfg{Lifecycle: lc, PausedCond: pc, Available: av, Objects: "a", Control: ctl}
+						out = append(out, ChainCase{Revs: []RevCfg{old, {Lifecycle: "Active", Available: na, Objects: "ab", Control: "reported"}}, Limit: -1, Matches: true})
+						out = append(out, ChainCase{Revs: []RevCfg{old, old, {Lifecycle: "Active", Available: na, Objects: "ab", Control: "reported"}}, Limit: 1, Matches: true})
+					}
+				}
+			}
+		}
+	}
 	// pruning chains: 3 and 4 revisions whose older members are paused or archived, available or
 	// not, and possibly still terminating from an earlier pruning; every revisionHistoryLimit
 	for _, n := range []int{3, 4} {
@@ -363,7 +383,7 @@ func enumerate(quick bool) []ChainCase {
 
 func runTable(o checks.Opts) *report.Report {
 	rep := report.New("C08", "decision")
-	rep.Rule = "one real ObjectDeployment pass over every pre-populated chain of 2 revisions (each: lifecycle Active/Paused/Archived x Paused condition x Available x objects {a},{b},{a,b} x control reported/unreported/none; revisionHistoryLimit nil/0/1/2; newest matching the template or not) and of 3 revisions (quick: two-valued control, fixed object sets; thorough: full alphabets), and pruning chains of 3 and 4 revisions (older members paused/archived x Available x still terminating from an earlier pruning; limit nil/0/1/2); managed objects in the store consistent with the control relation; every archive/delete request judged against Appendix A.2; distinct = set of lifecycle actions taken"
+	rep.Rule = "one real ObjectDeployment pass over every pre-populated chain of 2 revisions (each: lifecycle Active/Paused/Archived x Paused condition x Available x objects {a},{b},{a,b} x control reported/unreported/none; revisionHistoryLimit nil/0/1/2; newest matching the template or not) and of 3 revisions (quick: two-valued control, fixed object sets; thorough: full alphabets), chains whose older revisions report Paused = True / False / Unknown, and pruning chains of 3 and 4 revisions (older members paused/archived x Available x still terminating from an earlier pruning; limit nil/0/1/2); managed objects in the store consistent with the control relation; every archive/delete request judged against Appendix A.2; distinct = set of lifecycle actions taken"
 	cases := enumerate(o.Quick())
 	rep.Bounds["cases"] = len(cases)
 	for i, cc := range cases {
